@@ -13,6 +13,7 @@ import VotelibProofs.Lemmas.ScaleThreshold
 import VotelibProofs.Lemmas.ScaleQuota
 import VotelibProofs.Lemmas.ScaleConvert
 import VotelibProofs.Lemmas.ScaleRanked
+import VotelibProofs.Lemmas.ScaleApproval
 import VotelibModel.ScaleFamilies
 import VotelibModel.Gen.Quota
 import Mathlib.Tactic.Ring
@@ -191,6 +192,25 @@ theorem benham_scale (k : Rat) (hk : 0 < k) (p : Condorcet.Profile) :
 theorem tideman_scale (k : Rat) (hk : 0 < k) (smith : Bool) (p : Condorcet.Profile) :
     Condorcet.tideman smith (scaleRanked k p) = Condorcet.tideman smith p := VL.Scale.tideman_scale k hk smith p
 
+/-! ### proportional approval -/
+
+/-- an approval profile (C12 model) with every ballot weight multiplied by `k` -/
+abbrev scaleApproval (k : Rat) (p : Appr.Profile) : Appr.Profile := VL.Scale.scaleA k p
+
+/-- **SequentialProportionalApproval**: the reweighted round votes `Σ w/(1+|ballot ∩ elected|)` scale by `k` in every
+    round, so every round elects the same candidate (or refuses on the same tie). -/
+theorem spav_scale (k : Rat) (hk : 0 < k) (p : Appr.Profile) (n : Nat) :
+    Appr.spav (scaleApproval k p) n = Appr.spav p n := VL.Scale.spav_scale k hk p n
+
+/-- **ProportionalApproval**: harmonic satisfactions scale by `k`; the scan for the best committee, its uniqueness test
+    and the ordering by satisfaction drop are unchanged.  Stated for one call from ANY state of the coefficient cache
+    (`pavStep`), hence for every call of a re-used instance. -/
+theorem pav_scale (k : Rat) (hk : 0 < k) (coefs : List Rat) (p : Appr.Profile) (n : Nat) :
+    Appr.pavStep coefs (scaleApproval k p) n = Appr.pavStep coefs p n := VL.Scale.pavStep_scale k hk coefs p n
+
+theorem pav_fresh_scale (k : Rat) (hk : 0 < k) (p : Appr.Profile) (n : Nat) :
+    Appr.pav (scaleApproval k p) n = Appr.pav p n := VL.Scale.pav_scale k hk p n
+
 /-- **Near ties are never ties**: totals that differ by one vote at any magnitude (`v` is any rational, so in particular
     `10^30`) are separated. -/
 theorem near_tie_separated (a b : Cand) (v : Rat) :
@@ -227,6 +247,9 @@ example : C11F.condorcetRule .schulze (scaleRanked ((10:Rat)^25 + 7)
 example : Condorcet.benham (scaleRanked ((10:Rat)^25 + 7)
     [([.one 1, .one 2, .one 3], 2), ([.one 2, .one 3, .one 1], 2), ([.one 3, .one 1, .one 2], 1)]) = .ok [Slot.cand 1] := by
   decide +kernel
+example : Appr.spav (scaleApproval ((10:Rat)^25 + 7) [([1, 2], 3), ([2, 3], 2), ([3], 2)]) 2 = .ok [2, 3] := by decide +kernel
+example : Appr.pav (scaleApproval ((10:Rat)^25 + 7) [([1, 2], 3), ([2, 3], 2), ([3], 2)]) 2
+    = .ok [Slot.cand 2, Slot.cand 3] := by decide +kernel
 example : relativeThreshold (1/3) false (scaleVotes ((10:Rat)^25 + 7) [(1,2),(2,1),(3,3)]) = .ok [3] := by decide +kernel
 example : getNBest (scaleVotes ((10:Rat)^25 + 7) [(1,5),(2,3),(3,3)]) 2 = [Slot.cand 1, Slot.tie [2,3]] := by decide +kernel
 
